@@ -66,6 +66,9 @@ OPS = {
     'cvec': lambda name: C(CVECS[name]),
     'range': lambda n: ev.Range(C(n)),
     'lidx': _lidx,
+    # argument-dependent lengths: loop trip count / inserted axis length max(n, 0) for the int argument n (declared range 0..2)
+    'lidxn': lambda name, argname: ev.loop_index(name, ev.Maximum(arg(argname), C(0))),
+    'insertaxisn': lambda a, axis, argname: ev.insertaxis(a, _ax2(a, axis), ev.Maximum(arg(argname), C(0))),
     'zeros': lambda *shape: ev.zeros(tuple(C(n) for n in shape)),
     'ones': lambda *shape: ev.ones(tuple(C(n) for n in shape)),
     # unary pointwise
@@ -187,14 +190,17 @@ def parse(s):
 def used_args(p, out=None):
     if out is None: out = []
     if isinstance(p, tuple):
-        if p[0] == 'arg':
+        if p[0] in ('lidxn', 'insertaxisn'):
+            if p[-1] not in out: out.append(p[-1])
+            if p[0] == 'insertaxisn': used_args(p[1], out)
+        elif p[0] == 'arg':
             if p[1] not in out: out.append(p[1])
         else:
             for q in p[1:]: used_args(q, out)
     return out
 
 def depth(p):
-    if not isinstance(p, tuple) or p[0] in ('arg', 'cf', 'ci', 'cb', 'i2f', 'cvec', 'range', 'lidx', 'zeros', 'ones'): return 0
+    if not isinstance(p, tuple) or p[0] in ('arg', 'cf', 'ci', 'cb', 'i2f', 'cvec', 'range', 'lidx', 'lidxn', 'zeros', 'ones'): return 0
     return 1 + max([depth(q) for q in p[1:]] + [0])
 
 # ---------------------------------------------------------------- symbolic argument values
@@ -390,6 +396,22 @@ def structured(level=2):
             yield g
             if level >= 3:
                 for h in structural_forms(g): yield h
+
+# programs whose loop lengths / axis lengths depend on an argument ("loop-dependent and argument-dependent shapes")
+VARLEN = [
+    ('loop_sum', ('mul', ('add', ('tofloat', ('lidxn', 'i', 'n')), ('cf', 1.0)), ('arg', 'x')), ('lidxn', 'i', 'n')),
+    ('sin', ('loop_sum', ('mul', ('add', ('tofloat', ('lidxn', 'i', 'n')), ('cf', 1.0)), ('cvec', 'fvec3')), ('lidxn', 'i', 'n'))),
+    ('mul', ('arg', 'x'), ('sin', ('loop_sum', ('mul', ('add', ('tofloat', ('lidxn', 'i', 'n')), ('cf', 1.0)), ('cvec', 'fvec3')), ('lidxn', 'i', 'n')))),
+    ('loop_sum', ('take', ('arg', 'x'), ('lidxn', 'i', 'n'), 0), ('lidxn', 'i', 'n')),
+    ('loop_concat', ('insertaxis', ('take', ('arg', 'x'), ('lidxn', 'i', 'n'), 0), 0, 1), ('lidxn', 'i', 'n')),
+    ('loop_concat', ('take', ('cvec', 'fvec3'), ('range', 2), 0), ('lidxn', 'l', 'n')),
+    ('insertaxisn', ('sin', ('cvec', 'fvec3')), 1, 'n'), ('insertaxisn', ('sin', ('cvec', 'fvec3')), 0, 'n'), ('insertaxisn', ('arg', 'x'), 0, 'n'),
+    ('sum', ('insertaxisn', ('mul', ('arg', 'x'), ('exp', ('cvec', 'fvec3'))), 1, 'n'), 1),
+    ('mul', ('insertaxisn', ('exp', ('cvec', 'fvec3')), 1, 'n'), ('insertaxis', ('arg', 'x'), 1, 1)),
+    ('transpose', ('insertaxisn', ('exp', ('cvec', 'fmat')), 0, 'n'), 'r'),
+    ('take', ('exp', ('cvec', 'fmat')), ('arg', 'n'), 0), ('take', ('exp', ('cvec', 'fmat')), ('arg', 'n'), 1), ('get', ('transpose', ('exp', ('cvec', 'fmat')), 'r'), 0, 1),
+    ('loop_sum', ('loop_sum', ('mul', ('tofloat', ('lidxn', 'i', 'n')), ('take', ('arg', 'x'), ('lidx', 'j', 3), 0)), ('lidx', 'j', 3)), ('lidxn', 'i', 'n')),
+]
 
 # programs quoted in properties.jsonl and found earlier (always included)
 CORPUS = [
